@@ -160,6 +160,19 @@ def _mkey(m):
 
 
 # ----------------------------------------------------------------------------------------
+class _PointModel:
+    """a concrete assignment of the atoms standing in for a solver model (counterexample found by evaluation)"""
+
+    def __init__(self, values):
+        self.values = values
+
+    def eval(self, v, model_completion=True):
+        return z3.IntVal(self.values.get(v.decl().name(), 0))
+
+    def __getitem__(self, v):
+        return self.eval(v)
+
+
 class RE:
     """ring element num/den; num, den are (z3 Int term | python int, Poly)"""
     __slots__ = ("n", "d", "pn", "pd")
@@ -302,8 +315,25 @@ class Ring:
         self.solver_time += dt
         self.log.append((label, str(r), r == z3.unsat, dt))
         if r == z3.unknown:
+            # the solver gave up: a polynomial that is not identically zero is non-zero at almost every point, so a few random evaluations
+            # either produce a concrete counterexample (a refutation needs no solver) or leave the identity undecided
+            pt = self._refute_by_evaluation(n)
+            if pt is not None:
+                self.log.append((label, "refuted-by-evaluation", False, 0.0))
+                return False, pt
             raise ExecError("solver", "z3 returned unknown on ring identity %s" % label)
         return r == z3.unsat, mdl
+
+    def _refute_by_evaluation(self, n, tries=4):
+        import random
+        rnd = random.Random(1)
+        vs = list(self.vars.values())
+        for _ in range(tries):
+            asg = [(v, z3.IntVal(rnd.randrange(self.q))) for v in vs]
+            val = z3.simplify(z3.substitute(n, *asg)) if asg else z3.simplify(n)
+            if z3.is_int_value(val) and val.as_long() % self.q != 0:
+                return _PointModel({v.decl().name(): a.as_long() for v, a in asg})
+        return None
 
     def is_zero(self, a, label=""):
         """decides 'a == 0 identically in F_q[atoms]' -> (bool, model)"""
